@@ -341,3 +341,20 @@ func TestF24_HiddenSelectorPanic(t *testing.T) {
 	mpath.CueValidate(`$._a+b`, `input: {x: int}`, "")
 	mpath.CueValidate(`$.input.x`, `input: {x: int}`, "_a+b")
 }
+
+func TestF28_PointerToDecimal(t *testing.T) {
+	d := decimal.RequireFromString("1.5")
+	doc := map[string]any{"a": &d, "xs": []any{&d}}
+	res, err := mustNoPanic(t, `$.a`, doc)
+	if got, ok := res.(decimal.Decimal); err != nil || !ok || !got.Equal(d) {
+		t.Errorf("$.a on a *decimal.Decimal: want the decimal 1.5, got %T %v %v", res, res, err)
+	}
+	res, err = mustNoPanic(t, `$.a.Add(1)`, doc)
+	if got, ok := res.(decimal.Decimal); err != nil || !ok || !got.Equal(decimal.RequireFromString("2.5")) {
+		t.Errorf("$.a.Add(1) on a *decimal.Decimal: want 2.5, got %T %v %v", res, res, err)
+	}
+	res, err = mustNoPanic(t, `$.xs.First()`, doc)
+	if got, ok := res.(decimal.Decimal); err != nil || !ok || !got.Equal(d) {
+		t.Errorf("$.xs.First() on []any{*decimal.Decimal}: want the decimal 1.5, got %T %v %v", res, res, err)
+	}
+}
